@@ -36,7 +36,28 @@ type Pipelined struct {
 	API       string  // Write | WriteMsg
 	Yield     bool    // in-memory: every Write call on the server end yields afterwards
 	Seed      byte
+	// Round 10. Tsig: the server has a TSIG secret, every query is signed on its own (RFC 8945 5.2) and
+	// every reply is written with WriteMsg and a TSIG stub. The response writer a handler was given is
+	// that REQUEST's: TsigStatus() still says, when the reply is written after all queries of the
+	// connection have been read, what it said when the handler was entered, and the reply verifies at
+	// the client against the MAC of its own query. BadSig (cyclic over the queries of a connection):
+	// that query is signed with a key value the server does not hold - its handler must see the
+	// failure, early and late, and answers unsigned.
+	Tsig   bool   `json:",omitempty"`
+	BadSig []bool `json:",omitempty"`
 }
+
+// knownSharedTsigWriter is the id of the finding "on a stream connection every request is served with
+// the same response writer, so a handler that answers after ServeDNS has returned finds the TSIG state
+// (status, request MAC) of whichever request was read last" (KNOWN_FINDINGS.txt). While it is listed
+// and its probe reproduces, the pipelined rounds run without TSIG.
+const knownSharedTsigWriter = "tcp-writer-tsig-state-shared-by-requests"
+
+func (c Pipelined) badSig(i int) bool {
+	return c.Tsig && len(c.BadSig) > 0 && c.BadSig[i%len(c.BadSig)]
+}
+
+const pipeWrongSecret = "d3Jvbmctc2VjcmV0LWZvci10aGUtcGlwZWxpbmU="
 
 var pipelinedSizes = []int{40, 512, 4096, 16383, 16384, 16385, 16386, 17000, 20000, 25000, 33000, 65535}
 
@@ -59,6 +80,24 @@ func genPipelined(t *rapid.T) Pipelined {
 			sizes = append(sizes, s)
 		}
 		c.Conns = append(c.Conns, sizes)
+	}
+	if rapid.IntRange(0, 9).Draw(t, "tsig") < 4 {
+		if pbt.Known(knownSharedTsigWriter) {
+			pbt.Excluded(knownSharedTsigWriter)
+			return c
+		}
+		c.Tsig, c.API = true, "WriteMsg"
+		if rapid.Bool().Draw(t, "someBadlySigned") {
+			n := rapid.IntRange(2, 4).Draw(t, "badSigN")
+			for i := 0; i < n; i++ {
+				c.BadSig = append(c.BadSig, rapid.IntRange(0, 2).Draw(t, "badSig") == 0)
+			}
+		}
+		for _, sizes := range c.Conns {
+			for i := range sizes {
+				sizes[i] = min(sizes[i], 65000) // room for the TSIG record
+			}
+		}
 	}
 	return c
 }
@@ -104,6 +143,21 @@ func checkPipelined(c Pipelined) error {
 	if big2 {
 		cl = append(cl, ">=2-replies>16KiB-on-one-conn")
 	}
+	if c.Tsig {
+		cl = append(cl, "tsig")
+		anyBad := false
+		for k := range c.Conns {
+			for i := range c.Conns[k] {
+				anyBad = anyBad || c.badSig(i)
+			}
+		}
+		if anyBad {
+			cl = append(cl, "tsig,some-queries-badly-signed")
+		}
+		if c.API != "WriteMsg" {
+			return fmt.Errorf("malformed case: TSIG rounds reply with WriteMsg")
+		}
+	}
 	for _, sizes := range c.Conns {
 		for _, s := range sizes {
 			if s < fullOverhead || s > 65535 {
@@ -148,6 +202,17 @@ func checkPipelined(c Pipelined) error {
 			return
 		}
 		sl := slots[k]
+		var early error
+		if c.Tsig {
+			// the verdict on THIS request's signature
+			early = w.TsigStatus()
+			if c.badSig(i) && early == nil {
+				fail("query %d of connection %d was signed with a key value the server does not hold, yet TsigStatus() is nil in its handler", i, k)
+			}
+			if !c.badSig(i) && (early != nil || req.IsTsig() == nil) {
+				fail("query %d of connection %d was signed correctly, yet its handler sees TsigStatus() = %v (TSIG record present: %v)", i, k, early, req.IsTsig() != nil)
+			}
+		}
 		writers.Add(1)
 		go func() { // answer out of band, together with the other queries of this connection
 			defer writers.Done()
@@ -157,7 +222,17 @@ func checkPipelined(c Pipelined) error {
 				return
 			}
 			var err error
-			if c.API == "WriteMsg" {
+			if c.Tsig {
+				// every query of the connection has been read by now; the writer is still this request's
+				if late := w.TsigStatus(); (late == nil) != (early == nil) {
+					fail("response writer of query %d of connection %d: TsigStatus() was %v when the handler was entered and is %v when the reply is written (badly signed queries of the connection, cyclic: %v)", i, k, early, late, c.BadSig)
+				}
+				m := libMsg(req.Id, s, c.Seed+byte(i), true)
+				if !c.badSig(i) {
+					m.SetTsig(tsigKeyName, dns.HmacSHA256, 300, time.Now().Unix())
+				}
+				err = w.WriteMsg(m)
+			} else if c.API == "WriteMsg" {
 				err = w.WriteMsg(libMsg(req.Id, s, c.Seed+byte(i), true))
 			} else {
 				_, err = w.Write(buildMsg(req.Id, s, c.Seed+byte(i), true))
@@ -174,6 +249,9 @@ func checkPipelined(c Pipelined) error {
 		sl.mu.Unlock()
 	}
 	srv := &dns.Server{Handler: dns.HandlerFunc(handler), ReadTimeout: time.Minute, IdleTimeout: func() time.Duration { return time.Minute }}
+	if c.Tsig {
+		srv.TsigSecret = map[string]string{tsigKeyName: tsigSecret}
+	}
 	var lis *memnet.Listener
 	var addr string
 	switch c.Transport {
@@ -239,12 +317,85 @@ func checkPipelined(c Pipelined) error {
 			conn.SetDeadline(time.Now().Add(hangLimit))
 			total := 0
 			var stream []byte
+			macs := make([]string, len(c.Conns[k]))
 			for i, s := range c.Conns[k] {
-				stream = append(stream, frame(buildMsg(pipeID(k, i), 19, c.Seed, false))...)
+				q := buildMsg(pipeID(k, i), 19, c.Seed, false)
+				if c.Tsig {
+					// signed on its own: the MAC of an earlier query of the connection is not part of it
+					m := new(dns.Msg)
+					m.Id = pipeID(k, i)
+					m.RecursionDesired = true
+					m.Question = []dns.Question{{Name: "t.", Qtype: dns.TypeNULL, Qclass: dns.ClassINET}}
+					m.SetTsig(tsigKeyName, dns.HmacSHA256, 300, time.Now().Unix())
+					secret := tsigSecret
+					if c.badSig(i) {
+						secret = pipeWrongSecret
+					}
+					var e error
+					q, macs[i], e = dns.TsigGenerate(m, secret, "", false)
+					if e != nil {
+						fail("connection %d: query %d cannot be signed: %v", k, i, e)
+						return
+					}
+				}
+				stream = append(stream, frame(q)...)
 				total += 2 + s
 			}
 			if _, e := conn.Write(stream); e != nil {
 				fail("connection %d: writing the pipelined queries failed: %v", k, e)
+				return
+			}
+			if c.Tsig {
+				// the replies are longer than what the handler handed over by their TSIG records: frame by frame
+				seen := map[int]bool{}
+				for range c.Conns[k] {
+					var lb [2]byte
+					if _, e := io.ReadFull(conn, lb[:]); e != nil {
+						fail("connection %d: %d of %d replies arrived, then: %v", k, len(seen), len(c.Conns[k]), e)
+						return
+					}
+					m := make([]byte, int(lb[0])<<8|int(lb[1]))
+					if _, e := io.ReadFull(conn, m); e != nil || len(m) < 12 {
+						fail("connection %d: a reply frame of %d octets could not be read: %v", k, len(m), e)
+						return
+					}
+					id := uint16(m[0])<<8 | uint16(m[1])
+					kk, i, s, ok := size(id)
+					if !ok || kk != k || seen[i] {
+						fail("connection %d: received a frame with ID %d that is not an outstanding query of this connection", k, id)
+						return
+					}
+					seen[i] = true
+					rep := new(dns.Msg)
+					if e := rep.Unpack(m); e != nil {
+						fail("connection %d: reply to query %d does not decode: %v", k, i, e)
+						return
+					}
+					if e := sameAsBuilt(rep, id, s, c.Seed+byte(i)); e != nil {
+						fail("connection %d: reply to query %d differs from what its handler wrote: %v", k, i, e)
+						return
+					}
+					if c.badSig(i) {
+						if rep.IsTsig() != nil {
+							fail("connection %d: the handler of the badly signed query %d wrote an unsigned reply, a signed one arrived", k, i)
+						}
+						continue
+					}
+					if rep.IsTsig() == nil {
+						fail("connection %d: reply to query %d arrived without the TSIG record its handler asked for", k, i)
+						return
+					}
+					if e := dns.TsigVerify(m, tsigSecret, macs[i], false); e != nil {
+						other := ""
+						for j := range macs {
+							if j != i && dns.TsigVerify(m, tsigSecret, macs[j], false) == nil {
+								other = fmt.Sprintf("; it verifies against the MAC of query %d of the same connection", j)
+							}
+						}
+						fail("connection %d: the signed reply to query %d (of %d pipelined queries, answered after all had been read) does not verify against the MAC of its own query: %v%s", k, i, len(c.Conns[k]), e, other)
+						return
+					}
+				}
 				return
 			}
 			got := make([]byte, total)
@@ -299,7 +450,7 @@ func checkPipelined(c Pipelined) error {
 		return fmt.Errorf("serve call did not return within %v", hangLimit)
 	}
 	// observation only (not asserted): does every reply reach an in-memory conn as one Write call?
-	if c.Transport == "memTCP" {
+	if c.Transport == "memTCP" && !c.Tsig {
 		single := true
 		for k, calls := range writeCalls {
 			want := append([]int(nil), c.Conns[k]...)
@@ -348,6 +499,15 @@ func joinLines(s []string) string {
 	return out
 }
 
+// probeSharedTsigWriter: one in-memory stream connection, two correctly signed queries pipelined, both
+// handlers answer (signed) once both queries have been read. While the defect is present the reply
+// that is written first is signed over the MAC of the query that was read last and the second over
+// the MAC of the first reply, so at least one of them does not verify against its own query.
+func probeSharedTsigWriter() error {
+	return checkPipelined(Pipelined{Transport: "memTCP", Conns: [][]int{{40, 512}}, API: "WriteMsg", Tsig: true, Seed: 1})
+}
+
 func init() {
+	pbt.Probe(knownSharedTsigWriter, probeSharedTsigWriter)
 	pbt.Register(pbt.Sub[Pipelined]{Name: "crosstalk-pipelined", Weight: 0.12, Gen: genPipelined, Check: checkPipelined})
 }
